@@ -67,11 +67,14 @@ def generalVal (v : Option Val) (op : Op) (lit : Lit) : Res :=
 
 def generalCmp (c : Cmp) (row : Row) : Res := generalVal (row.get c.field) c.op c.lit
 
-/-- the predicates of C12's quantifier as expr-lang parses them (parentheses leave no trace) -/
+/-- the predicates of C12's quantifier as expr-lang parses them; `paren` records a pair of
+parentheses in the text (the parenthesised twin `(p)` that forces the general path) — it leaves
+no trace in the compiled program -/
 inductive Pred where
   | cmp (c : Cmp)
   | and (a b : Pred)
   | or (a b : Pred)
+  | paren (p : Pred)
   deriving DecidableEq
 
 /-- `a && b` given both outcomes (`b`'s is only looked at when `a` is `true`) -/
@@ -89,6 +92,7 @@ def generalEval : Pred → Row → Res
   | .cmp c, row => generalCmp c row
   | .and a b, row => Res.and (generalEval a row) (generalEval b row)
   | .or a b, row => Res.or (generalEval a row) (generalEval b row)
+  | .paren p, row => generalEval p row
 
 /-- `c₀ && c₁ && …` is left-associative in expr-lang -/
 def chainFrom (isAnd : Bool) (acc : Pred) : List Cmp → Pred
